@@ -121,6 +121,14 @@ pub struct Case {
     pub tls: bool,
     /// `dinit=1`: use the shim type that does not override `on_init`
     pub dinit: bool,
+    // tls mode only
+    pub clientcert: bool,
+    pub pre: Vec<u8>,
+    pub plain: Vec<u8>,
+    pub split: usize,
+    pub prechunks: Vec<usize>,
+    /// None = `*`
+    pub chunks: Option<Vec<usize>>,
     pub auth: Option<u64>,
     pub reads: Vec<RTok>,
     pub fault: Fault,
@@ -416,7 +424,7 @@ fn parse_fault(rest: &str) -> Result<Fault, String> {
 
 /// Parse the lines of one case (from `case <id>` to `end`, both included).
 /// Errors carry the 0-based offset of the offending line within `lines`.
-pub fn parse_case(lines: &[&str]) -> Result<Case, (usize, String)> {
+pub fn parse_case(lines: &[&str], tls_mode: bool) -> Result<Case, (usize, String)> {
     let mut aux = Vec::new();
     let id = lines[0]
         .strip_prefix("case ")
@@ -429,6 +437,12 @@ pub fn parse_case(lines: &[&str]) -> Result<Case, (usize, String)> {
         lim: 16_777_215,
         tls: false,
         dinit: false,
+        clientcert: false,
+        pre: Vec::new(),
+        plain: Vec::new(),
+        split: 0,
+        prechunks: Vec::new(),
+        chunks: None,
         auth: None,
         reads: Vec::new(),
         fault: Fault::None,
@@ -459,6 +473,7 @@ pub fn parse_case(lines: &[&str]) -> Result<Case, (usize, String)> {
         aux: Vec::new(),
     };
     let (mut seen_cfg, mut seen_reads, mut seen_fault) = (false, false, false);
+    let mut seen_tls: std::collections::HashSet<&str> = std::collections::HashSet::new();
     let last = lines.len() - 1;
     for (n, line) in lines.iter().enumerate().skip(1) {
         let e = |m: String| (n, m);
@@ -499,6 +514,13 @@ pub fn parse_case(lines: &[&str]) -> Result<Case, (usize, String)> {
                                 _ => return Err(e("tls must be 0 or 1".into())),
                             }
                         }
+                        "clientcert" if tls_mode => {
+                            c.clientcert = match v {
+                                "0" => false,
+                                "1" => true,
+                                _ => return Err(e("clientcert must be 0 or 1".into())),
+                            }
+                        }
                         "dinit" => {
                             c.dinit = match v {
                                 "0" => false,
@@ -518,6 +540,43 @@ pub fn parse_case(lines: &[&str]) -> Result<Case, (usize, String)> {
                         _ => return Err(e(format!("unknown cfg key `{}`", k))),
                     }
                 }
+            }
+            "pre" | "plain" | "split" | "prechunks" | "chunks" if tls_mode => {
+                if !seen_tls.insert(dir) {
+                    return Err(e(format!("duplicate {}", dir)));
+                }
+                let sizes = |rest: &str| -> Result<Vec<usize>, String> {
+                    let mut v = Vec::new();
+                    let mut t = toks(rest);
+                    while !t.at_end() {
+                        let n: usize = t.num("chunk size")?;
+                        if n == 0 {
+                            return Err("chunk size must be >= 1".into());
+                        }
+                        v.push(n);
+                    }
+                    Ok(v)
+                };
+                match dir {
+                    "pre" => c.pre = crate::util::parse_hexspec(rest).map_err(e)?,
+                    "plain" => c.plain = crate::util::parse_hexspec(rest).map_err(e)?,
+                    "split" => c.split = parse_dec(rest, "split").map_err(e)?,
+                    "prechunks" => c.prechunks = sizes(rest).map_err(e)?,
+                    _ => {
+                        if rest == "*" {
+                            c.chunks = None;
+                        } else {
+                            let v = sizes(rest).map_err(e)?;
+                            if v.is_empty() {
+                                return Err(e("chunks needs sizes or `*`".into()));
+                            }
+                            c.chunks = Some(v);
+                        }
+                    }
+                }
+            }
+            "reads" | "fault" if tls_mode => {
+                return Err(e(format!("`{}` is not a tls-mode directive", dir)));
             }
             "reads" => {
                 if seen_reads {
@@ -558,6 +617,8 @@ pub struct CaseState {
     pub fault: Option<Fault>,
     pub opno: u64,
     pub aux: Vec<Aux>,
+    /// `tls_client_certs.map(len)` as seen by the last `after_authentication` call
+    pub certs: Option<Option<usize>>,
 }
 
 thread_local! {
@@ -565,7 +626,7 @@ thread_local! {
 }
 
 /// Append one observation line: `<id>|` + whatever `f` writes + newline.
-fn obs(f: impl FnOnce(&mut String)) {
+pub(crate) fn obs(f: impl FnOnce(&mut String)) {
     CS.with(|cs| {
         let mut cs = cs.borrow_mut();
         let cs = &mut *cs;
@@ -745,7 +806,7 @@ impl From<io::Error> for ShimError {
     }
 }
 
-fn shim_kind(e: &ShimError) -> String {
+pub(crate) fn shim_kind(e: &ShimError) -> String {
     match e {
         ShimError::Io(e) => io_kind(e),
         ShimError::Shim(t) => format!("Shim:{}", t),
@@ -774,13 +835,16 @@ fn callback_result(r: io::Result<()>, ret: Option<u64>) -> Result<(), ShimError>
     }
 }
 
-enum St<'a> {
-    Q(QueryResultWriter<'a, Transport>),
-    R(RowWriter<'a, Transport>),
+enum St<'a, W: Read + Write> {
+    Q(QueryResultWriter<'a, W>),
+    R(RowWriter<'a, W>),
 }
 
 /// Interpret a (flattened) qprog. `Err(e)` = the program propagates `e` out of the callback.
-fn run_qprog<'a>(w: QueryResultWriter<'a, Transport>, ops: &'a [Op]) -> io::Result<()> {
+fn run_qprog<'a, W: Read + Write>(
+    w: QueryResultWriter<'a, W>,
+    ops: &'a [Op],
+) -> io::Result<()> {
     let mut st = St::Q(w);
     let mut it = ops.iter();
     loop {
@@ -886,21 +950,44 @@ pub struct Inner {
     ii: usize,
 }
 
+impl Inner {
+    pub fn new(case: Arc<Case>) -> Inner {
+        Inner {
+            case,
+            qi: 0,
+            pi: 0,
+            xi: 0,
+            ii: 0,
+        }
+    }
+}
+
+static SERVER_IDENTITY: OnceLock<(Vec<u8>, Vec<u8>)> = OnceLock::new();
+
+/// (certificate DER, PKCS#8 key DER) of the server's self-signed certificate, built once.
+pub(crate) fn server_identity() -> &'static (Vec<u8>, Vec<u8>) {
+    SERVER_IDENTITY.get_or_init(|| {
+        let cert = rcgen::generate_simple_self_signed(vec!["localhost".to_string()])
+            .expect("harness: rcgen failed");
+        (
+            cert.serialize_der().expect("harness: cert der"),
+            cert.get_key_pair().serialize_der(),
+        )
+    })
+}
+
 static TLS_CONFIG: OnceLock<Arc<rustls::ServerConfig>> = OnceLock::new();
 
-fn tls_config() -> Arc<rustls::ServerConfig> {
+pub(crate) fn tls_config() -> Arc<rustls::ServerConfig> {
     TLS_CONFIG
         .get_or_init(|| {
             use rustls::pki_types::{CertificateDer, PrivateKeyDer};
-            let cert = rcgen::generate_simple_self_signed(vec!["localhost".to_string()])
-                .expect("harness: rcgen failed");
+            let (cert, key) = server_identity();
             let cfg = rustls::ServerConfig::builder()
                 .with_no_client_auth()
                 .with_single_cert(
-                    vec![CertificateDer::from(
-                        cert.serialize_der().expect("harness: cert der"),
-                    )],
-                    PrivateKeyDer::Pkcs8(cert.get_key_pair().serialize_der().into()),
+                    vec![CertificateDer::from(cert.clone())],
+                    PrivateKeyDer::Pkcs8(key.clone().into()),
                 )
                 .expect("harness: rustls server config");
             Arc::new(cfg)
@@ -1033,10 +1120,10 @@ fn do_conv(conv: Conv, v: msql_srv::Value<'_>) {
 }
 
 impl Inner {
-    fn on_prepare(
+    fn on_prepare<W: Read + Write>(
         &mut self,
         query: &str,
-        info: StatementMetaWriter<'_, Transport>,
+        info: StatementMetaWriter<'_, W>,
     ) -> Result<(), ShimError> {
         obs(|l| {
             l.push_str("call|prepare|");
@@ -1065,11 +1152,11 @@ impl Inner {
         callback_result(r, line.ret)
     }
 
-    fn on_execute(
+    fn on_execute<W: Read + Write>(
         &mut self,
         id: u32,
         params: ParamParser<'_>,
-        results: QueryResultWriter<'_, Transport>,
+        results: QueryResultWriter<'_, W>,
     ) -> Result<(), ShimError> {
         obs(|l| {
             let _ = write!(l, "call|execute|{}", id);
@@ -1107,10 +1194,10 @@ impl Inner {
         });
     }
 
-    fn on_query(
+    fn on_query<W: Read + Write>(
         &mut self,
         query: &str,
-        results: QueryResultWriter<'_, Transport>,
+        results: QueryResultWriter<'_, W>,
     ) -> Result<(), ShimError> {
         obs(|l| {
             l.push_str("call|query|");
@@ -1124,7 +1211,11 @@ impl Inner {
         callback_result(r, line.ret)
     }
 
-    fn on_init(&mut self, schema: &str, w: InitWriter<'_, Transport>) -> Result<(), ShimError> {
+    fn on_init<W: Read + Write>(
+        &mut self,
+        schema: &str,
+        w: InitWriter<'_, W>,
+    ) -> Result<(), ShimError> {
         obs(|l| {
             l.push_str("call|init|");
             push_hex(l, schema.as_bytes());
@@ -1154,7 +1245,11 @@ impl Inner {
 
     fn tls_config(&self) -> Option<Arc<rustls::ServerConfig>> {
         if self.case.tls {
-            Some(tls_config())
+            if self.case.clientcert {
+                Some(crate::tlsmode::server_config_client_auth())
+            } else {
+                Some(tls_config())
+            }
         } else {
             None
         }
@@ -1168,6 +1263,8 @@ impl Inner {
                 None => l.push_str("none"),
             }
         });
+        let n = ctx.tls_client_certs.map(|c| c.len());
+        CS.with(|cs| cs.borrow_mut().certs = Some(n));
         match self.case.auth {
             None => Ok(()),
             Some(t) => Err(ShimError::Shim(t)),
@@ -1176,19 +1273,19 @@ impl Inner {
 }
 
 /// The normal shim: every callback is scripted.
-pub struct Shim(Inner);
+pub struct Shim(pub Inner);
 
 /// `dinit=1`: identical, but `on_init` is NOT overridden (the trait's default runs).
-pub struct ShimDefaultInit(Inner);
+pub struct ShimDefaultInit(pub Inner);
 
 macro_rules! shim_common {
-    () => {
+    ($w:ident) => {
         type Error = ShimError;
 
         fn on_prepare(
             &mut self,
             query: &str,
-            info: StatementMetaWriter<'_, Transport>,
+            info: StatementMetaWriter<'_, $w>,
         ) -> Result<(), ShimError> {
             self.0.on_prepare(query, info)
         }
@@ -1197,7 +1294,7 @@ macro_rules! shim_common {
             &mut self,
             id: u32,
             params: ParamParser<'_>,
-            results: QueryResultWriter<'_, Transport>,
+            results: QueryResultWriter<'_, $w>,
         ) -> Result<(), ShimError> {
             self.0.on_execute(id, params, results)
         }
@@ -1209,7 +1306,7 @@ macro_rules! shim_common {
         fn on_query(
             &mut self,
             query: &str,
-            results: QueryResultWriter<'_, Transport>,
+            results: QueryResultWriter<'_, $w>,
         ) -> Result<(), ShimError> {
             self.0.on_query(query, results)
         }
@@ -1227,16 +1324,16 @@ macro_rules! shim_common {
     };
 }
 
-impl MysqlShim<Transport> for Shim {
-    shim_common!();
+impl<W: Read + Write> MysqlShim<W> for Shim {
+    shim_common!(W);
 
-    fn on_init(&mut self, schema: &str, w: InitWriter<'_, Transport>) -> Result<(), ShimError> {
+    fn on_init(&mut self, schema: &str, w: InitWriter<'_, W>) -> Result<(), ShimError> {
         self.0.on_init(schema, w)
     }
 }
 
-impl MysqlShim<Transport> for ShimDefaultInit {
-    shim_common!();
+impl<W: Read + Write> MysqlShim<W> for ShimDefaultInit {
+    shim_common!(W);
 }
 
 // ---------------------------------------------------------------------------------------------
@@ -1260,6 +1357,7 @@ pub fn run_case(case: Case) -> (String, Vec<Aux>) {
             fault: Some(case.fault),
             opno: 0,
             aux: parse_aux,
+            certs: None,
         };
     });
     msql_srv::verif::set_packet_limit(case.lim);
@@ -1268,13 +1366,7 @@ pub fn run_case(case: Case) -> (String, Vec<Aux>) {
         let _ = tls_config();
     }
     let case = Arc::new(case);
-    let inner = Inner {
-        case: case.clone(),
-        qi: 0,
-        pi: 0,
-        xi: 0,
-        ii: 0,
-    };
+    let inner = Inner::new(case.clone());
     let r = if case.dinit {
         let shim = ShimDefaultInit(inner);
         panics::caught(move || MysqlIntermediary::run_on(shim, Transport))
